@@ -309,13 +309,24 @@ func siteJudge(args, real, drv json.RawMessage) *core.Verdict {
 			if !d.WF {
 				return core.Fail("grammar:newline-in-argument", fmt.Sprintf("site %s: %q loaded as %s but the grammar says %s", a.Site, r.Rendered, r.Out, d.Eval))
 			}
-			return core.Fail("site-mapping:"+a.Site+":"+siteStateKey(a), fmt.Sprintf("site %s: %q with environment %v, env files %v loaded as %s but the grammar (first layer that sets the variable wins) says %s", a.Site, r.Rendered, a.Env, a.Layers, r.Out, d.Eval))
+			return core.Fail("site-mapping:"+a.Site+":"+siteStateKey(a), fmt.Sprintf("site %s: %q with environment %v, env files %v%s loaded as %s but the grammar (first layer that sets the variable wins) says %s", a.Site, r.Rendered, a.Env, a.Layers, rawText(a), r.Out, d.Eval))
 		}
 	}
 	if !modelOK {
 		return core.Disagree(fmt.Sprintf("site %s: siteSubst ≠ loaded value (%s vs %s)", a.Site, d.Model, r.Out))
 	}
 	return nil
+}
+
+func rawText(a siteArgs) string {
+	if len(a.Raw) == 0 {
+		return ""
+	}
+	var l []string
+	for _, r := range a.Raw {
+		l = append(l, r.K+"=\""+renderSegs(r.Ast)+"\"")
+	}
+	return ", env-file lines " + strings.Join(l, " ; ")
 }
 
 // siteStateKey names the variable-state classes present (stable key of a finding).
